@@ -216,7 +216,9 @@ class UdpInverterProtocol(InverterProtocol, asyncio.DatagramProtocol):
             except asyncio.CancelledError:
                 if self._retry < self.retries:
                     self._retry += 1
-                    if not self.keep_alive:
+                    if not self.keep_alive or self._timer:
+                        # timer still armed: not a timeout but a cancellation by the caller. The transmission may
+                        # still be answered, a new socket keeps that answer away from later requests
                         self._close_transport()
                     continue
                 return self._max_retries_reached()
